@@ -534,6 +534,14 @@ def main(pid, tier):
         for m in names:
             if m in o["ev"] and m != "ovni":
                 streams[lr.randrange(ns)]["ev"].append(m)
+        # decoys: names that are not models (an extension and a proper prefix of a model name that no
+        # stream requires) in the require table of half of the cases; they require nothing
+        if lr.random() < 0.5:
+            for m in names:
+                if m not in o["req"] and m != "ovni":
+                    k = lr.randrange(ns)
+                    streams[k]["req"][m + "2"] = models[m]["version"]
+                    streams[k]["req"][m[:-1]] = models[m]["version"]
         return streams, run_emu(bdir, streams, models, o["all"])
 
     results = core.pmap(emu_model_case, sel)
